@@ -401,7 +401,16 @@ func (c *Ctx) forkedAppends(rule string, fn *ssa.Function, reg map[ssa.Value]reg
 									d = x
 								}
 							case *ssa.Phi:
-								d = x
+								// the merge carries a1's result past a2 only if it enters on an edge a2 may have run before
+								// (`out, err := F(b); if err != nil { out, _ = G(b) }; return out`: where G ran, the merge
+								// takes G's result)
+								for i, ed := range x.Edges {
+									if ed == v && i < len(x.Block().Preds) {
+										if pb := x.Block().Preds[i]; pb == a2.Block() || reachable(a2.Block())[pb] {
+											d = x
+										}
+									}
+								}
 							case *ssa.Extract:
 								if _, isSlice := x.Type().Underlying().(*types.Slice); isSlice && x.Index == 0 {
 									d = x
@@ -425,6 +434,20 @@ func (c *Ctx) forkedAppends(rule string, fn *ssa.Function, reg map[ssa.Value]reg
 						}
 						if _, isDbg := u.(*ssa.DebugRef); isDbg {
 							continue
+						}
+						if ph, isPhi := u.(*ssa.Phi); isPhi {
+							// a merge reads v only on the edges it enters by
+							reads := false
+							for i, ed := range ph.Edges {
+								if ed == v && i < len(ph.Block().Preds) {
+									if pb := ph.Block().Preds[i]; pb == a2.Block() || reachable(a2.Block())[pb] {
+										reads = true
+									}
+								}
+							}
+							if !reads {
+								continue
+							}
 						}
 						c.add("violated", rule, fn, a2.Pos(), fmt.Sprintf("two append chains fork from one slice of the caller's buffer: the append at line %d and this one write the same spare capacity, and the earlier result is still used afterwards (line %d) — with enough capacity the later append overwrites it", c.Prog.Fset.Position(a1.Pos()).Line, c.Prog.Fset.Position(u.Pos()).Line))
 						goto next
